@@ -42,7 +42,10 @@ RULE_ADDED = (
               'very command - all ten answers are the same. '
               ' '
               'Round 14: advance / updateAncestor shapes whose headers the device cuts short (a'
-              'll sweeps apply to them). ')
+              'll sweeps apply to them). '
+              ' '
+              'Round 15: one status word in 32 also over TCPSigner / SGX: same outcome as over '
+              'HID. ')
 RULE = RULE + " " + RULE_ADDED.strip()
 ASSUMPTIONS = [
     "simulated device + fake HID transport trusted; injected status words carry no data "
